@@ -261,8 +261,23 @@ def cps(s):
     return ' '.join(str(ord(c)) for c in s)
 
 
+MODEL_TIMEOUTS = 0
+
+
 def run_model(cmd, lines, tag='m'):
-    return _run_sharded([KMODEL, cmd], lines, tag + '-' + cmd, preexec=_big_stack)
+    """The extracted model on `lines`.  A shard that exceeds the time limit yields None for its unfinished cases (the model
+    is proved to terminate; it is merely slow on large automata) — they are then not compared, and counted in the evidence."""
+    global MODEL_TIMEOUTS
+    limit = 300 if os.environ.get('VERIF_TIER', 'quick') != 'thorough' else 1800
+    out = _run_sharded([KMODEL, cmd], lines, tag + '-' + cmd, preexec=_big_stack, timeout=limit)
+    res = []
+    for y in out:
+        if y.startswith('CRASH') and y.rstrip().endswith('TIMEOUT'):
+            MODEL_TIMEOUTS += 1
+            res.append(None)
+        else:
+            res.append(y)
+    return res
 
 
 # ------------------------------------------------------------------ harness (Rust)
